@@ -1,11 +1,17 @@
-//! Watchdog: turns "one case has been running for more than LIMIT seconds" into a verdict
-//! (non-termination) that names the offending case.
+//! Watchdog + crash journal.
+//!
+//! * Watchdog: turns "one case has been running for more than LIMIT_S seconds" into a verdict
+//!   (non-termination) that names the offending case.
+//! * Journal: every case in flight is also written into a slot of a memory-mapped file, so that
+//!   when the process is killed (stack overflow, abort) the supervising parent process can read
+//!   which cases were running and probe them one by one in fresh subprocesses.
 
 use std::sync::atomic::{AtomicBool, AtomicUsize, Ordering};
 use std::sync::{Mutex, OnceLock};
 use std::time::{Duration, Instant};
 
-const SLOTS: usize = 256;
+pub const SLOTS: usize = 256;
+pub const SLOT_BYTES: usize = 4096;
 pub const LIMIT_S: u64 = 20;
 
 struct Slot {
@@ -15,6 +21,7 @@ struct Slot {
 static TABLE: OnceLock<Vec<Slot>> = OnceLock::new();
 static NEXT: AtomicUsize = AtomicUsize::new(0);
 static STARTED: AtomicBool = AtomicBool::new(false);
+static JOURNAL: AtomicUsize = AtomicUsize::new(0); // base address of the mapping, 0 = none
 
 thread_local! {
     static MY: usize = NEXT.fetch_add(1, Ordering::Relaxed) % SLOTS;
@@ -22,6 +29,71 @@ thread_local! {
 
 fn table() -> &'static Vec<Slot> {
     TABLE.get_or_init(|| (0..SLOTS).map(|_| Slot { cur: Mutex::new(None) }).collect())
+}
+
+/// Map the journal file (created / truncated to SLOTS * SLOT_BYTES zero bytes).
+pub fn open_journal(path: &str) {
+    use std::os::unix::io::AsRawFd;
+    let Ok(f) = std::fs::OpenOptions::new().read(true).write(true).create(true).truncate(true).open(path) else { return };
+    if f.set_len((SLOTS * SLOT_BYTES) as u64).is_err() {
+        return;
+    }
+    let p = unsafe {
+        libc::mmap(std::ptr::null_mut(), SLOTS * SLOT_BYTES, libc::PROT_READ | libc::PROT_WRITE, libc::MAP_SHARED, f.as_raw_fd(), 0)
+    };
+    if p != libc::MAP_FAILED {
+        JOURNAL.store(p as usize, Ordering::SeqCst);
+    }
+    std::mem::forget(f);
+}
+
+fn journal_set(i: usize, tag: &str, what: &str) {
+    let base = JOURNAL.load(Ordering::Relaxed);
+    if base == 0 {
+        return;
+    }
+    unsafe {
+        let slot = (base + i * SLOT_BYTES) as *mut u8;
+        std::ptr::write_volatile(slot as *mut u32, 0);
+        let mut off = 8usize;
+        for part in [tag.as_bytes(), &[1u8][..], what.as_bytes()] {
+            let n = part.len().min(SLOT_BYTES - off);
+            std::ptr::copy_nonoverlapping(part.as_ptr(), slot.add(off), n);
+            off += n;
+        }
+        std::sync::atomic::fence(Ordering::SeqCst);
+        std::ptr::write_volatile(slot as *mut u32, (off - 8) as u32);
+    }
+}
+
+fn journal_clear(i: usize) {
+    let base = JOURNAL.load(Ordering::Relaxed);
+    if base != 0 {
+        unsafe { std::ptr::write_volatile((base + i * SLOT_BYTES) as *mut u32, 0) };
+    }
+}
+
+/// Read the in-flight cases (tag, what) out of a journal file left behind by a dead process.
+pub fn read_journal(path: &str) -> Vec<(String, String)> {
+    let Ok(bytes) = std::fs::read(path) else { return vec![] };
+    let mut out = vec![];
+    for i in 0..SLOTS {
+        let lo = i * SLOT_BYTES;
+        let hi = ((i + 1) * SLOT_BYTES).min(bytes.len());
+        if hi < lo + 8 {
+            continue;
+        }
+        let s = &bytes[lo..hi];
+        let len = u32::from_le_bytes([s[0], s[1], s[2], s[3]]) as usize;
+        if len == 0 || 8 + len > s.len() {
+            continue;
+        }
+        let body = &s[8..8 + len];
+        if let Some(p) = body.iter().position(|b| *b == 1) {
+            out.push((String::from_utf8_lossy(&body[..p]).to_string(), String::from_utf8_lossy(&body[p + 1..]).to_string()));
+        }
+    }
+    out
 }
 
 /// Start the monitor thread once. `on_hang(case)` must report and terminate the process.
@@ -45,11 +117,19 @@ pub fn start(on_hang: impl Fn(String) + Send + 'static) {
     });
 }
 
-/// Run one case under the watchdog.
+/// Run one case under the watchdog (and the crash journal, with an empty tag).
 pub fn case<T>(what: &str, f: impl FnOnce() -> T) -> T {
+    tagged("", what, f)
+}
+
+/// Run one case under the watchdog and the crash journal. `tag` says how to probe the case again
+/// (the format name for string inputs, "fold:<format>" for JSON lexical values).
+pub fn tagged<T>(tag: &str, what: &str, f: impl FnOnce() -> T) -> T {
     let i = MY.with(|m| *m);
     *table()[i].cur.lock().unwrap() = Some((Instant::now(), what.to_string()));
+    journal_set(i, tag, what);
     let r = f();
+    journal_clear(i);
     *table()[i].cur.lock().unwrap() = None;
     r
 }
